@@ -90,7 +90,7 @@ type Fail = (&'static str, &'static str, String); // (property, clause, message)
 
 /// read all five shapes of `lfo` and check the per-phase clauses of C10
 #[inline]
-fn observe(lfo: &Lfo, order: u8) -> Result<Obs, Fail> {
+fn observe(lfo: &Lfo, order: u8) -> (Option<Obs>, Option<Fail>) {
     let mut v = [0f32; 5];
     // read in a rotated order: the result must not depend on it
     let rot = (order % 5) as usize;
@@ -101,20 +101,21 @@ fn observe(lfo: &Lfo, order: u8) -> Result<Obs, Fail> {
     let (sine, tri, up, down, sq) = (v[0], v[1], v[2], v[3], v[4]);
     let kf = (up as f64 + 1.0) * 8_388_608.0;
     if !(kf >= 0.0 && kf < TWO24 && kf.fract() == 0.0) {
-        return Err(("C10", "upsaw-not-a-phase", format!("UpSaw={} is not 2*k/2^24-1 for an integer counter value k in [0,2^24)", fmt_f32(up))));
+        return (None, Some(("C10", "upsaw-not-a-phase", format!("UpSaw={} is not 2*k/2^24-1 for an integer counter value k in [0,2^24)", fmt_f32(up)))));
     }
     let k = kf as u32;
+    let obs = Some(Obs { k, sine, tri });
     for (name, x) in [("sine", sine), ("triangle", tri), ("upsaw", up), ("downsaw", down), ("square", sq)] {
         if !(x >= -1.0 && x <= 1.0) {
-            return Err(("C10", "range", format!("{}={} outside [-1,1] at k={}", name, fmt_f32(x), k)));
+            return (obs, Some(("C10", "range", format!("{}={} outside [-1,1] at k={}", name, fmt_f32(x), k))));
         }
     }
     if down != -up {
-        return Err(("C10", "downsaw", format!("DownSaw={} != -UpSaw={} at k={}", fmt_f32(down), fmt_f32(up), k)));
+        return (obs, Some(("C10", "downsaw", format!("DownSaw={} != -UpSaw={} at k={}", fmt_f32(down), fmt_f32(up), k))));
     }
     let want_sq = if k < (1 << 23) { 1.0 } else { -1.0 };
     if sq != want_sq {
-        return Err(("C10", "square", format!("Square={} at k={} (phase {:.9}), expected {}", sq, k, k as f64 / TWO24, want_sq)));
+        return (obs, Some(("C10", "square", format!("Square={} at k={} (phase {:.9}), expected {}", sq, k, k as f64 / TWO24, want_sq))));
     }
     let r = k as f64 / TWO24 * 4.0;
     let want_tri = if r < 1.0 {
@@ -125,14 +126,14 @@ fn observe(lfo: &Lfo, order: u8) -> Result<Obs, Fail> {
         r - 4.0
     };
     if tri as f64 != want_tri {
-        return Err(("C10", "triangle", format!("Triangle={} at k={} expected exactly {:e}", fmt_f32(tri), k, want_tri)));
+        return (obs, Some(("C10", "triangle", format!("Triangle={} at k={} expected exactly {:e}", fmt_f32(tri), k, want_tri))));
     }
     let want_sin = (2.0 * std::f64::consts::PI * k as f64 / TWO24).sin();
     let err = (sine as f64 - want_sin).abs();
     if !(err <= 0.0125) {
-        return Err(("C10", "sine", format!("Sine={} at k={} differs from sin(2*pi*phase)={:.7} by {:.5} > 0.0125", fmt_f32(sine), k, want_sin, err)));
+        return (obs, Some(("C10", "sine", format!("Sine={} at k={} differs from sin(2*pi*phase)={:.7} by {:.5} > 0.0125", fmt_f32(sine), k, want_sin, err))));
     }
-    Ok(Obs { k, sine, tri })
+    (obs, None)
 }
 
 pub struct Exec<'a> {
@@ -198,15 +199,19 @@ pub fn execute(h: &History, want: &str, rep: &mut Report) -> Option<Violation> {
     }
     macro_rules! obs {
         ($order:expr, $i:expr, $ticks:expr) => {{
-            match call!(observe(&lfo, $order), $i, $ticks) {
-                Ok(o) => o,
-                Err((prop, clause, msg)) => {
-                    if wanted(want, prop) {
-                        rep.evaluations += n_eval;
-                        return Some(mk(prop, clause, msg, $i, $ticks));
-                    }
+            let (o, f) = call!(observe(&lfo, $order), $i, $ticks);
+            if let Some((prop, clause, msg)) = f {
+                if wanted(want, prop) {
+                    rep.evaluations += n_eval;
+                    return Some(mk(prop, clause, msg, $i, $ticks));
+                }
+                rep.count("lfo.other_property_failures_ignored", 1);
+            }
+            match o {
+                Some(o) => o,
+                None => {
                     // cannot continue this history without a phase read-back
-                    rep.count("lfo.history_abandoned_other_property", 1);
+                    rep.count("lfo.history_abandoned_no_phase_readback", 1);
                     rep.evaluations += n_eval;
                     return None;
                 }
@@ -256,13 +261,13 @@ pub fn execute(h: &History, want: &str, rep: &mut Report) -> Option<Violation> {
                                 {
                                     let mut twin = Lfo::new(fs);
                                     twin.set_phase(q);
-                                    observe(&twin, 0).map(|o| o.k)
+                                    observe(&twin, 0).0.map(|o| o.k)
                                 },
                                 i,
                                 None
                             );
                             rep.count("lfo.set_phase.negative_twin", 1);
-                            if let Ok(k2) = k2 {
+                            if let Some(k2) = k2 {
                                 if k2 != cur.k {
                                     fail!("C11", "set_phase-negative-mod1", format!("set_phase({}) gives counter {} but set_phase({}) gives {}", p, cur.k, q, k2), i, None);
                                 }
